@@ -201,6 +201,16 @@ fn main() {
             }
             println!("all + compare    {:>6.0} ns/case ({})", t.elapsed().as_nanos() as f64 / n as f64, acc);
         }
+        "explore" => {
+            // explore <PROP> <tier>: only the explicit-state part of a check
+            if args.len() < 4 {
+                usage();
+            }
+            match props::explore(&args[2], tier_of(&args[3])) {
+                Some(j) => println!("{}", j.render()),
+                None => println!("{{}}"),
+            }
+        }
         "hist" => {
             if args.len() < 4 {
                 usage();
